@@ -11,7 +11,9 @@ pub struct Adapter {
 impl Adapter {
     pub fn new(kv: &Kv) -> Adapter {
         let mut b = BulkheadLayer::builder().max_concurrent_calls(kv.u64("max", 1) as usize);
-        if let Some(ms) = kv.opt_u64("wait") {
+        if kv.get("wait") == Some("max") {
+            b = b.max_wait_duration(Duration::MAX);
+        } else if let Some(ms) = kv.opt_u64("wait") {
             b = b.max_wait_duration(Duration::from_millis(ms));
         }
         let layer = b.build();
